@@ -41,7 +41,17 @@ def run_one(e):
                             "revert", "--no-commit", commit], cwd=tmp,
                            capture_output=True, text=True)
         if p.returncode != 0:
-            return e, "CONFLICT", ""
+            # later repairs touched the same lines: use the hand-made undo
+            # patch /verif/reverts/<commit>.diff on a fresh clone
+            manual = os.path.join(VERIF, "reverts", commit[:7] + ".diff")
+            if not os.path.exists(manual):
+                return e, "CONFLICT", ""
+            subprocess.run(["git", "reset", "-q", "--hard"], cwd=tmp)
+            q = subprocess.run(["patch", "-p1", "-s",
+                                "--no-backup-if-mismatch", "-i", manual],
+                               cwd=tmp, capture_output=True, text=True)
+            if q.returncode != 0:
+                return e, "CONFLICT", "manual undo patch does not apply"
         env = dict(os.environ)
         env["GFAVERIF_EVIDENCE_DIR"] = os.path.join(tmp, ".evidence")
         q = subprocess.run(["/venv/bin/python", "-m", "gfaverif", "check",
